@@ -191,7 +191,9 @@ func (r *recorder) WriteString(s string) (n int, err error) {
 func (r *recorder) ReadFrom(src io.Reader) (n int64, err error) {
 	if rf, ok := r.ResponseWriter.(io.ReaderFrom); ok {
 		n, err = rf.ReadFrom(src)
-		if err == nil {
+		// Account for the bytes accepted by the underlying writer whether or not the copy ended with an error, and
+		// consider the response written only if something was actually sent (same as the fallback path below).
+		if n > 0 {
 			if r.size == notWritten {
 				r.size = 0
 			}
